@@ -188,6 +188,7 @@ type ScenarioCfg struct {
 	Warm         bool // one history in four runs with an executor and/or options object that was used before (see WarmSpec)
 	WideStolen   bool // one history in six asks for more stolen babies than half the population (up to three times its size)
 	FitRegimes   bool // one history in five changes its fitness program at a generated epoch
+	BigPops      bool // one history in thirty has a population of 65-513 organisms (one or two epochs), half of them with a tiny threshold: as many species as organisms
 }
 
 func genScenario(cfg ScenarioCfg) *rapid.Generator[Scenario] {
@@ -261,6 +262,20 @@ func genScenario(cfg ScenarioCfg) *rapid.Generator[Scenario] {
 		if cfg.Retry && rapid.IntRange(0, 5).Draw(t, "cancelled attempt") == 0 {
 			sc.RetryAt = 1 + rapid.IntRange(0, sc.Epochs-1).Draw(t, "cancelled attempt at")
 			sc.Opts.SurvivalThresh = 1
+		}
+		if cfg.BigPops && rapid.IntRange(0, 29).Draw(t, "big population") == 17 {
+			sc.Opts.PopSize = rapid.SampledFrom([]int{65, 100, 129, 257, 300, 513}).Draw(t, "big population size")
+			if sc.Opts.BabiesStolen > sc.Opts.PopSize/2 {
+				sc.Opts.BabiesStolen = sc.Opts.PopSize / 2
+			}
+			if rapid.Bool().Draw(t, "one species per organism") {
+				sc.Opts.CompatThreshold = 0.001
+				sc.Opts.MutdiffCoeff = 3
+			}
+			sc.Epochs = rapid.IntRange(1, 2).Draw(t, "epochs (big population)")
+			if sc.Ctor == "random" || sc.Ctor == "reread" {
+				sc.Ctor = "spawn"
+			}
 		}
 		sc.Express = rapid.IntRange(0, 2).Draw(t, "organisms expressed") == 0
 		if cfg.WideStolen && rapid.IntRange(0, 5).Draw(t, "many stolen babies") == 0 {
@@ -508,6 +523,12 @@ func runScenario(sc Scenario, h epochHooks, rec *Rec) error {
 	rec.Class("fitness:" + sc.Fit.Kind)
 	if sc.FitSwitch != nil {
 		rec.Class("fitness program changes during the history")
+	}
+	if len(pop.Organisms) > 64 {
+		rec.Class("population of more than 64 organisms")
+		if len(pop.Species) > 64 {
+			rec.Class("more than 64 species")
+		}
 	}
 	if sc.Opts.BabiesStolen > sc.Opts.PopSize/2 {
 		rec.Class("more stolen babies requested than half the population")
